@@ -168,7 +168,12 @@ def sync_loop(mx, jit, nconn, seed, nlisteners=1):
 def real_run(wk, mx, jit, mode, nreq, seed):
     rng = _random.Random(seed)
     args = ["--max-requests", str(mx), "--max-requests-jitter", str(jit), "--graceful-timeout", "5", "--keep-alive", "2"]
-    nworkers = 1 if mode == "burst" else 2
+    if mode == "parked":
+        args[-1] = "6"
+    if mode == "drain":
+        args += ["--timeout", "2"]
+        args[args.index("--graceful-timeout") + 1] = "12"
+    nworkers = 1 if mode in ("burst", "parked", "drain") else 2
     s = rp.Server(wk, workers=nworkers, threads=(1 if mode == "burst" else 2) if wk == "gthread" else None, args=args, name="c18")
     pids = {}
     ev = []
@@ -201,6 +206,50 @@ def real_run(wk, mx, jit, mode, nreq, seed):
                 one("/pid")
                 if rng.random() < 0.2:
                     time.sleep(0.05)
+        elif mode == "parked":
+            # a kept-alive connection is parked in the worker while another client takes it to the limit; the parked
+            # one may have one more request answered (it was there already), after that the old worker is gone for it
+            allow = 1
+            a = s.connect(timeout=8)
+
+            def on_a():
+                try:
+                    st, body, info = s.get("/pid", sock=a, keepalive=True, timeout=4)
+                    pid, _ = rp.parse_ident(body)
+                    ok = st == 200 and pid is not None and info["complete"]
+                    return {"e": "resp", "ok": bool(ok), "pid": pid_id(pid) if pid else 0}, info
+                except OSError:
+                    return None, {"closed": True}
+            rec, info = on_a()
+            ev.append(rec or {"e": "resp", "ok": False, "pid": 0, "why": "parked connection: first request"})
+            for i in range(mx - 2):          # the start-up probe and the parked connection's request count too
+                one("/pid")
+            time.sleep(1.6)                  # (the async workers' accept loop notices the limit within its 1 s tick)
+            for i in range(nreq):
+                rec, info = on_a() if a is not None else (None, None)
+                if rec is None or not rec["ok"]:
+                    # the old worker closed the parked connection, as it should: carry on like a new client
+                    if a is not None:
+                        a.close()
+                        a = None
+                    one("/pid")
+                else:
+                    ev.append(rec)
+                    if info.get("closed"):
+                        a.close()
+                        a = None
+            if a is not None:
+                a.close()
+        elif mode == "drain":
+            # a request longer than --timeout is in flight when the limit is reached: the draining worker must be left
+            # alone (and keep its heartbeat) until the request is answered
+            allow = 1
+            th = threading.Thread(target=one, args=("/sleep?t=5",))
+            th.start()
+            time.sleep(0.3)
+            for i in range(mx - 1):
+                one("/pid")
+            th.join()
         elif mode == "burst":
             # more requests than handler threads arrive before the limit is reached: those queued for a thread are
             # in flight when the worker stops accepting
@@ -221,7 +270,7 @@ def real_run(wk, mx, jit, mode, nreq, seed):
         ev.append({"e": "end", "alive": sorted(alive), "initial": sorted(pid_id(p) for p in initial)})
         tr = {"max": mx, "jit": jit, "allow": allow, "workers": nworkers, "npids": max(len(pids), 1),
               "initial": sorted(pid_id(p) for p in initial), "ev": ev}
-        return tr, {"where": "real-burst" if mode == "burst" else "real", "wk": wk, "mode": mode, "nreq": nreq,
+        return tr, {"where": "real-" + mode if mode in ("burst", "parked", "drain") else "real", "wk": wk, "mode": mode, "nreq": nreq,
                     "fails": [e.get("why") for e in ev if e.get("e") == "resp" and not e["ok"]][:3]}
     finally:
         s.cleanup()
@@ -252,9 +301,11 @@ def c18(ctx):
                 traces.append(t)
                 metas.append(m)
     plan = [("sync", 3, 0, "seq", 14), ("gthread", 3, 0, "seq", 14), ("gevent", 3, 0, "seq", 14), ("sync", 0, 0, "seq", 10),
-            ("gthread", 3, 0, "burst", 4)]     # the start-up probe is the worker's first request
+            ("gthread", 3, 0, "burst", 4),     # the start-up probe is the worker's first request
+            ("gevent", 4, 0, "parked", 4), ("gevent", 3, 0, "drain", 0)]
     if not ctx.quick:
-        plan += [("sync", 3, 0, "burst", 4), ("gevent", 3, 0, "burst", 4), ("eventlet", 3, 0, "burst", 4), ("gthread", 2, 0, "burst", 3)]
+        plan += [("eventlet", 4, 0, "parked", 4), ("gthread", 4, 0, "parked", 4), ("eventlet", 3, 0, "drain", 0), ("gthread", 3, 0, "drain", 0),
+                 ("sync", 3, 0, "burst", 4), ("gevent", 3, 0, "burst", 4), ("eventlet", 3, 0, "burst", 4), ("gthread", 2, 0, "burst", 3)]
         plan += [(wk, mx, jit, mode, 24) for wk in ("sync", "gthread", "gevent", "eventlet")
                  for (mx, jit) in ((1, 0), (2, 1), (4, 2), (0, 0)) for mode in ("seq", "conc")]
     results = [None] * len(plan)
@@ -265,7 +316,7 @@ def c18(ctx):
             results[i] = real_run(wk, mx, jit, mode, n, ctx.seed * 100 + i)
         except Exception as e:   # noqa  (machinery)
             results[i] = e
-    par = 5
+    par = 7
     for base in range(0, len(plan), par):
         ths = [threading.Thread(target=runner, args=(i,)) for i in range(base, min(base + par, len(plan)))]
         [t.start() for t in ths]
